@@ -33,6 +33,8 @@ structure Plane where
   cprLon1 : Nat := 0
   cprTime0 : Int
   cprTime1 : Int
+  cprSurf0 : Bool := false
+  cprSurf1 : Bool := false
   lat : Rat := 0
   lon : Rat := 0
   distance : Option Rat := none
@@ -72,7 +74,7 @@ def numSeconds (a b : Int) : Int := Int.tdiv (a - b) 1000
 /-- the position `update_position` commits, if any: both slots of both coordinates filled,
     receive times less than 10 whole seconds apart, same latitude zone, result in range -/
 def Plane.posDecode (p : Plane) (messageType cprForm : Nat) : Option (Rat × Rat) :=
-  if p.cprLat0 ≠ 0 ∧ p.cprLat1 ≠ 0 ∧ p.cprLon0 ≠ 0 ∧ p.cprLon1 ≠ 0
+  if p.cprLat0 ≠ 0 ∧ p.cprLat1 ≠ 0 ∧ p.cprLon0 ≠ 0 ∧ p.cprLon1 ≠ 0 ∧ p.cprSurf0 = p.cprSurf1
       ∧ (numSeconds p.cprTime0 p.cprTime1).natAbs < 10 then
     let loc :=
       if 5 ≤ messageType ∧ messageType ≤ 8 then
@@ -96,18 +98,20 @@ def Plane.updatePosition (env : Env) (p : Plane) (messageType cprForm : Nat) : P
 
 /-- the slot assignment of `amend_cpr` / `update_cpr`.
     TRAP: `self.cpr_lat[cpr_form as usize]` (the flag is a single bit) -/
-def Plane.setCprSlot (p : Plane) (c : Nat × Nat × Nat) : Plane :=
+def Plane.setCprSlot (p : Plane) (messageType : Nat) (c : Nat × Nat × Nat) : Plane :=
   { p with cprLat0 := if c.1 = 0 then c.2.1 else p.cprLat0,
            cprLon0 := if c.1 = 0 then c.2.2 else p.cprLon0,
            cprTime0 := if c.1 = 0 then p.timestamp else p.cprTime0,
            cprLat1 := if c.1 = 0 then p.cprLat1 else c.2.1,
            cprLon1 := if c.1 = 0 then p.cprLon1 else c.2.2,
-           cprTime1 := if c.1 = 0 then p.cprTime1 else p.timestamp }
+           cprTime1 := if c.1 = 0 then p.cprTime1 else p.timestamp,
+           cprSurf0 := if c.1 = 0 then decide (5 ≤ messageType ∧ messageType ≤ 8) else p.cprSurf0,
+           cprSurf1 := if c.1 = 0 then p.cprSurf1 else decide (5 ≤ messageType ∧ messageType ≤ 8) }
 
 /-- store a CPR triple in its slot and try to decode (`amend_cpr` / `update_cpr`) -/
 def Plane.storeCpr (env : Env) (p : Plane) (messageType : Nat) (c : Option (Nat × Nat × Nat)) : Plane :=
   match c with
-  | some c => (p.setCprSlot c).updatePosition env messageType c.1
+  | some c => (p.setCprSlot messageType c).updatePosition env messageType c.1
   | none => p
 
 /-- `(altitude as i32 + altitude_delta) as u32` -/
